@@ -86,7 +86,9 @@ pub fn process_class(x: &[u8], nsets: usize) -> &'static str {
             _ => "seteid-op>=4",
         },
         0x06 => {
-            if x[11] == 0xFF {
+            if nsets == 0 {
+                "vendor-selector:no-sets-configured"
+            } else if x[11] == 0xFF {
                 "vendor-selector-0xFF"
             } else if x[11] as usize >= nsets {
                 "vendor-selector>=n"
